@@ -378,9 +378,15 @@ func ruleC15_5(c *Ctx) {
 		if !ok {
 			return
 		}
-		rs := results(r)
-		if isNilConst(rs[0]) {
-			okE, _ := c.definitelyNonNil(rs[1], r, 0)
+		comps := retComponents(r)
+		connV := componentOfType(comps, func(t types.Type) bool { n, ok := t.(*types.Named); return ok && n.Obj().Name() == "SConn" })
+		errV := componentOfType(comps, func(t types.Type) bool { return types.Identical(t, types.Universe.Lookup("error").Type()) })
+		if connV == nil || errV == nil {
+			c.undecided("getConn: returned connection and error", c.at(r), "the return does not carry a connection and an error (as results or as fields of a struct built in place)")
+			return
+		}
+		if isNilConst(connV) {
+			okE, _ := c.definitelyNonNil(errV, r, 0)
 			c.check(okE, "getConn: no connection ⇒ an error", c.at(r), "non-nil error", "getConn can return (nil connection, nil error): OnCReact calls EnqueueOutFrag on a nil connection and the proxy exits")
 		}
 	})
